@@ -483,7 +483,13 @@ class FunTranslator:
         for p, t in it.params:
             env[p] = t
             binders.append((p, t))
-        body = self.block(self.fn.body, env, lambda e: self.err(self.fn, 'function falls off the end'))
+        def fall_off(e):
+            # a procedure (no return value): its result is the tuple of the self attributes it may write
+            outs = ['self_' + x for x in it.out_selfs] + list(it.out_lists)
+            if not outs:
+                self.err(self.fn, 'function falls off the end')
+            return self.retwrap(self.tuple_of(outs))
+        body = self.block(self.fn.body, env, fall_off)
         tymap = {'Z': 'Z', 'bool': 'bool', 'bytes': 'list Z', 'table': 'list Z'}
         bs = ' '.join('(%s : %s)' % (n, tymap[t]) for n, t in binders)
         return 'Definition %s %s :=\n  %s.\n' % (it.coqname, bs, body)
@@ -584,6 +590,13 @@ ITEMS = [
     Item('pycdlib/utils.py', 'gmtoffset_from_tm_fields', 'gmtoffset_from_tm', []),  # special-cased below
     Item('tools/pycdlib-genisoimage', 'mm3hash', 'mm3hash', [('key', 'bytes'), ('seed', Zt)],
          identity=['bytearray', 'xencode']),
+    # volume size counters (procedures: the result is the new value of the attribute they write)
+    Item('pycdlib/headervd.py', 'PrimaryOrSupplementaryVD.add_to_space_size', 'vd_add_to_space_size', [('addition_bytes', Zt)],
+         selfs={'space_size': Zt, 'log_block_size': Zt}, out_selfs=['space_size'],
+         calls={'utils.ceiling_div': ('ceiling_div', Zt)}, file='GenObj.v'),
+    Item('pycdlib/headervd.py', 'PrimaryOrSupplementaryVD.remove_from_space_size', 'vd_remove_from_space_size', [('removal_bytes', Zt)],
+         selfs={'space_size': Zt, 'log_block_size': Zt}, out_selfs=['space_size'],
+         calls={'utils.ceiling_div': ('ceiling_div', Zt)}, file='GenObj.v'),
     # the directory packing loop: children are read/written attribute-wise
     Item('pycdlib/dr.py', 'DirectoryRecord._recalculate_extents_and_offsets', 'dr_recalculate',
          [('index', Zt), ('logical_block_size', Zt)],
@@ -664,6 +677,7 @@ From PV.Gen Require Import GenConst.
 '''
 
 PRELUDE_OBJ = '''From PV.Base Require Import Prim Upd.
+From PV.Gen Require Import GenFun.
 '''
 
 
